@@ -54,7 +54,7 @@ impl Repo {
         }
     }
 
-    fn git(&self, args: &[&str], date: Option<i64>) -> Result<String, String> {
+    pub fn git(&self, args: &[&str], date: Option<i64>) -> Result<String, String> {
         let mut cmd = Command::new("git");
         cmd.args(args).current_dir(&self.dir);
         if let Some(d) = date {
@@ -178,10 +178,56 @@ fn now_s() -> i64 {
 
 /// one observation of `zerv version -C <repo>`, projected onto model names
 pub fn observe(repo: &Repo, fmt: &str) -> Value {
-    let dir = repo.dir.to_string_lossy().to_string();
+    observe_at(repo, fmt, &repo.dir)
+}
+
+/// observe from a sub-directory of the main work tree: started there (`cwd`: the repository root is
+/// found upwards) or addressed with -C (`dashc`: documented to look in that directory only)
+pub fn observe_subdir(repo: &Repo, fmt: &str, dashc: bool) -> Value {
+    let sub = repo.dir.join("sub").join("dir");
+    std::fs::create_dir_all(&sub).unwrap();
+    let o = if dashc { observe_at(repo, fmt, &sub) } else { observe_cwd(repo, fmt, &sub) };
+    let _ = std::fs::remove_dir_all(repo.dir.join("sub"));
+    o
+}
+
+/// observe from a linked work tree detached at commit c (`.git` is a file there)
+pub fn observe_linked(repo: &Repo, fmt: &str, c: usize) -> Value {
+    let wt = repo.dir.with_extension(format!("wt{c}"));
+    let _ = std::fs::remove_dir_all(&wt);
+    let h = repo.hashes[c - 1].clone();
+    if let Err(e) = repo.git(&["worktree", "add", "-q", "--detach", &wt.to_string_lossy(), &h], None) {
+        return json!({"kind": "harness", "text": e});
+    }
+    let o = observe_at(repo, fmt, &wt);
+    let _ = repo.git(&["worktree", "remove", "--force", &wt.to_string_lossy()], None);
+    let _ = std::fs::remove_dir_all(&wt);
+    let _ = repo.git(&["worktree", "prune"], None);
+    o
+}
+
+pub fn observe_at(repo: &Repo, fmt: &str, dir: &Path) -> Value {
+    let dir = dir.to_string_lossy().to_string();
     let t0 = now_s() - 1;
     let o = run_cli(&argv(&["version", "-C", &dir, "--source", "git", "--input-format", fmt, "--output-format", "zerv"]), None);
     let t1 = now_s() + 1;
+    project_outcome(repo, o, t0, t1)
+}
+
+/// the real binary started with `dir` as its working directory and no -C: the repository root is
+/// searched upwards without limit
+pub fn observe_cwd(repo: &Repo, fmt: &str, dir: &Path) -> Value {
+    let t0 = now_s() - 1;
+    let args: Vec<String> = ["version", "--source", "git", "--input-format", fmt, "--output-format", "zerv"].iter().map(|s| s.to_string()).collect();
+    let r = crate::proc::run_bin(&args, None, &[], &["RUST_LOG"], Some(dir));
+    let t1 = now_s() + 1;
+    let o = if r.signal != 0 || r.status == 101 || r.timed_out { Outcome::Panic(String::from_utf8_lossy(&r.stderr).to_string()) }
+            else if r.status == 0 { Outcome::Ok(String::from_utf8_lossy(&r.stdout).trim_end().to_string()) }
+            else { Outcome::Err(String::from_utf8_lossy(&r.stderr).to_string()) };
+    project_outcome(repo, o, t0, t1)
+}
+
+fn project_outcome(repo: &Repo, o: Outcome, t0: i64, t1: i64) -> Value {
     match o {
         Outcome::Panic(m) => json!({"kind": "panic", "text": m}),
         Outcome::Err(e) => json!({"kind": "err", "notags": e.to_lowercase().contains("no version tags") || e.to_lowercase().contains("no tags"), "text": e}),
@@ -227,13 +273,25 @@ fn expected_dirty(kind: &str) -> bool {
 /// judge one observation against the expected answers of the specification (Gen direction)
 fn judge(rep: &mut Report, case: &Value, fmt: &str, kind: &str, obs: &Value, ops_text: &str) {
     rep.evaluations += 1;
-    let exp = arr(&case["exp"][fmt]);
+    // kind "linked:<c>": a linked work tree detached at commit c
+    let at: usize = kind.strip_prefix("linked:").map(|c| c.parse().unwrap()).unwrap_or(0);
+    let exp = if at > 0 { arr(&case["expAt"][at - 1][fmt]) } else { arr(&case["exp"][fmt]) };
+    let want_branch = if at > 0 { json!("") } else { case["branch"].clone() };
+    let want_head = if at > 0 { json!(at) } else { case["headc"].clone() };
+    if kind == "subdir-dashc" {
+        // -C <dir> looks for the repository in <dir> only: a sub-directory is "not a git repository"
+        if !(obs["kind"] == "err" && obs["text"].as_str().unwrap_or("").contains("Not in a git repository")) {
+            rep.mismatch("X:dash-c-looks-in-that-directory-only", json!({"ops": ops_text, "format": fmt, "observed": obs}));
+        }
+        return;
+    }
     let mismatch = |rep: &mut Report, key: &str, why: &str| {
         rep.mismatch(key, json!({"ops": ops_text, "format": fmt, "worktree": kind, "why": why,
                                   "expected_any_of": exp.iter().map(|e| json!({"tag": cps(&e["tag"]), "commit": e["c"], "distance": e["distance"]})).collect::<Vec<_>>(),
-                                  "expected_branch": case["branch"], "expected_head": case["headc"], "observed": obs}));
+                                  "expected_branch": want_branch, "expected_head": want_head, "observed": obs}));
     };
     match obs["kind"].as_str().unwrap() {
+        "harness" => mismatch(rep, "C02:model-git-disagree", "git refused to add a linked work tree"),
         "panic" => mismatch(rep, "C02:panic", "panic"),
         "unparsable" => mismatch(rep, "C02:unparsable-output", "unparsable"),
         "err" => {
@@ -252,9 +310,9 @@ fn judge(rep: &mut Report, case: &Value, fmt: &str, kind: &str, obs: &Value, ops
                 mismatch(rep, "C02:base-tag-or-distance", "tag / tagged commit / distance is not an acceptable answer");
             } else if obs["dirty"].as_bool().unwrap() != expected_dirty(kind) {
                 mismatch(rep, "C02:dirty", "dirty flag");
-            } else if obs["branch"] != case["branch"] {
+            } else if obs["branch"] != want_branch {
                 mismatch(rep, "C02:branch", "branch name");
-            } else if obs["headc"] != case["headc"] {
+            } else if obs["headc"] != want_head {
                 mismatch(rep, "C02:head-commit", "HEAD commit hash");
             } else if !obs["tag_time_ok"].as_bool().unwrap() {
                 mismatch(rep, "C02:tag-time", "time of the tagged commit");
@@ -296,13 +354,20 @@ pub fn replay(args: &[String]) {
         }
         let mut obs = vec![];
         for fmt in ["auto", "semver", "pep440"] {
-            obs.push((fmt, "clean", observe(&repo, fmt)));
+            obs.push((fmt, "clean".to_string(), observe(&repo, fmt)));
         }
+        // from a sub-directory, and from a linked work tree detached at one of the commits
+        let f2 = ["auto", "semver", "pep440"][text.len() % 3];
+        obs.push((f2, "subdir".to_string(), observe_subdir(&repo, f2, false)));
+        obs.push((f2, "subdir-dashc".to_string(), observe_subdir(&repo, f2, true)));
+        let c = 1 + (text.len() / 3) % repo.hashes.len();
+        let f3 = ["auto", "semver", "pep440"][(text.len() / 2) % 3];
+        obs.push((f3, format!("linked:{c}"), observe_linked(&repo, f3, c)));
         // the work-tree kinds under one format each
         for (i, kind) in KINDS.iter().enumerate().skip(1) {
             let fmt = ["auto", "semver", "pep440"][(text.len() + i) % 3];
             repo.touch(kind);
-            obs.push((fmt, *kind, observe(&repo, fmt)));
+            obs.push((fmt, kind.to_string(), observe(&repo, fmt)));
             repo.restore();
         }
         (text, obs, None)
@@ -400,11 +465,23 @@ pub fn record(args: &[String]) {
                 }
             }
             let fmt = ["auto", "semver", "pep440"][rng.gen_range(0..3)];
-            let kind = KINDS[[0, 0, 0, 1, 2, 3, 4][rng.gen_range(0..7)]];
-            repo.touch(kind);
-            let o = observe(&repo, fmt);
-            repo.restore();
-            events.push(json!({"k": "observe", "fmt": fmt, "wt": kind, "obs": o}));
+            match rng.gen_range(0..8) {
+                0 => events.push(json!({"k": "observe", "fmt": fmt, "wt": "clean", "at": 0, "where": "subdir", "obs": observe_subdir(&repo, fmt, false)})),
+                1 => {
+                    let c = rng.gen_range(1..=repo.hashes.len());
+                    let o = observe_linked(&repo, fmt, c);
+                    if o["kind"] != "harness" {
+                        events.push(json!({"k": "observe", "fmt": fmt, "wt": "clean", "at": c, "where": "linked", "obs": o}));
+                    }
+                }
+                _ => {
+                    let kind = KINDS[[0, 0, 0, 1, 2, 3, 4][rng.gen_range(0..7)]];
+                    repo.touch(kind);
+                    let o = observe(&repo, fmt);
+                    repo.restore();
+                    events.push(json!({"k": "observe", "fmt": fmt, "wt": kind, "at": 0, "where": "root", "obs": o}));
+                }
+            }
         }
         events
     });
